@@ -101,6 +101,13 @@ def e2e_cases(ctx):
         cases.append({"root": str(ctx.scratch / f"e2e{i}"), "fmt": fmt, "comp": comp, "eps": eps, "plan": plan, "configs": configs,
                       # no checksum algorithm at all is a valid configuration: nothing may depend on the digests being distinct
                       "hashes": [["sha256"], [], ["md5", "xxh64"]][(i // 3 + i) % 3], "append": [0, 3, 1][i % 3]})
+    # a *declared* shard size far beyond what is ever written (65537, a million, 2^31-1 examples per shard): the declared number is a
+    # bound for the writer, nothing a reader may derive buffer or batch sizes from
+    for j, big_eps in enumerate([65537, 10 ** 6, 2 ** 31 - 1][: ctx.pick(2, 3)] if not ctx.thorough else [65537, 10 ** 6, 2 ** 31 - 1]):
+        fmt = ["npz", "fb", "tfrec"][(j + ctx.seed) % 3]
+        cases.append({"root": str(ctx.scratch / f"e2e_bigeps{j}"), "fmt": fmt, "comp": "", "eps": big_eps,
+                      "plan": [{"sub": ".", "writes": [(0, 3), (1, 2)]}, {"sub": "a", "writes": [(0, 4)]}, {"sub": ".", "writes": [(0, 2)]}],
+                      "configs": [(0, 1), (0, -1), (2, 2)], "hashes": ["sha256"], "append": 1})
     return cases
 
 
